@@ -5,6 +5,7 @@ sends the chunks of bytes it wrote, in the order in which they had to be read, a
 that came out of the uinput pipe.
   E2E <chunks>   -> "<hex of wireOut> <number of sends> <read log>"     chunks: `k<hex>` / `t<hex>` joined by `,` (`-` = none)
   E2EANY <kbd hex> <tablet hex> <out hex> -> "ok" | "no-interleaving"   (`wireAccepts`: is the output `wireOfLog` of SOME interleaving of the two per-device logs?)
+  E2ET <chunks with ticks>  -> hex of `wireOfTLog` | "reject"    chunks as for E2E, `x` = a timer tick (a chord is written)
   TDEC <hex>     -> the tablet-switch events `decodeTabletStream` yields: `on` / `off` joined by `,` (`-` = none)
 -/
 import TmVerif.Model.EndToEnd
@@ -43,6 +44,16 @@ def handle (L : Layout) (toks : List String) : Option String :=
     match parseHex kb, parseHex tb, parseHex out with
     | some kb, some tb, some out => some (if wireAccepts L kb tb out then "ok" else "no-interleaving")
     | _, _, _ => none
+  | ["E2ET", cs] =>
+    let parts := if cs == "-" then [] else cs.splitOn ","
+    let items := sequence (parts.map fun p =>
+      if p == "x" then some [TItem.tick] else (parseChunk p).map (fun c => c.items.map TItem.item))
+    match items with
+    | some its =>
+      (match wireOfTLog L State.init none false its.flatten with
+       | some bytes => some (showHex bytes)
+       | none => some "reject")
+    | none => none
   | ["TDEC", hex] =>
     match parseHex hex with
     | some bytes => some (showList showTab (decodeTabletStream bytes))
